@@ -77,7 +77,11 @@ package larking
 // will ever deliver), rdpos(r) the number of bytes delivered so far. Buffered
 // says that a buffer holds exactly the stream bytes [g, rdpos(r)): nothing
 // lost, duplicated or reordered, whatever the read boundaries were.
+// (The content clause is stated twice, once quantified over the buffer index and
+// once over the absolute index of the backing array, so that the solver can
+// instantiate it from either side.)
 //@ spec Buffered(b, r, g) = g + len(b) == rdpos(r) && (forall k :: 0 <= k && k < len(b) ==> b[k] == rdS(r)[g+k])
+//@      && (forall x :: off(b) <= x && x < off(b) + len(b) ==> raw(b)[x] == rdS(r)[x - off(b) + g])
 
 //@ func (codecHTTPBody).ReadNext serves C17 C06 C08 C09
 //@   returns (dst, n, err)
@@ -93,3 +97,28 @@ package larking
 //@   oracle err != io.EOF || n == len(dst)
 //@   loop 1 invariant Buffered(b, r, g0)
 //@   loop 1 decreases limit - len(b) assuming ReaderProgress
+
+// A well-formed varint of h bytes starts at stream coordinate g.
+//@ spec VarintAt(S, g, h) = 1 <= h && h <= 10 && (forall j :: 0 <= j && j < h-1 ==> S[g+j] >= 128)
+//@      && S[g+h-1] < 128 && (h == 10 ==> S[g+9] <= 1)
+// Number of header bytes consumed in front of dst (dst ends at rdpos(r)).
+//@ spec Hdr(dst, r, g) = rdpos(r) - len(dst) - g
+
+//@ func (CodecProto).ReadNext serves C17 C06 C08 C09
+//@   returns (dst, n, err)
+//@   ghost g0 = rdpos(r) - len(b)
+//@   requires r != nil && Buffered(b, r, g0)
+//@   ensures [bounds] 0 <= n && n <= len(dst)
+//@   ensures [limit] err == nil && limit > 0 ==> n <= limit
+//@   ensures [header] err == nil ==> VarintAt(rdS(r), g0, Hdr(dst, r, g0)) && n == VarintVal(rdS(r)[g0:], Hdr(dst, r, g0))
+//@   ensures [conserve] 0 <= Hdr(dst, r, g0) && Hdr(dst, r, g0) <= 10 && Buffered(dst, r, g0 + Hdr(dst, r, g0))
+//@   ensures [exact] err == nil ==> n == len(dst) || Hdr(dst, r, g0) + len(dst) == len(b)
+//@   ensures [err-nomsg] err != nil ==> n == 0
+//@   ensures [clean-eof] err == io.EOF ==> len(dst) == 0
+//@   oracle (n >= 0 && n <= len(dst)) && (err != io.EOF || len(dst) == 0)
+//@   loop 1 invariant 0 <= i && i <= 10 && Buffered(b, r, g0)
+//@   loop 1 invariant forall j :: 0 <= j && j < i ==> j < len(b) && b[j] >= 128
+//@   loop 1 decreases 10 - i
+//@   loop 2 invariant 0 <= i && i < 10 && Buffered(b, r, g0)
+//@   loop 2 invariant forall j :: 0 <= j && j < i ==> j < len(b) && b[j] >= 128
+//@   loop 2 decreases i + 1 - len(b) assuming ReaderProgress
